@@ -405,19 +405,43 @@ def shadowed_types():
             out.append(Case(J(L), limits=dict(steps=5000), meta=dict(gen='shadowed-types-' + kname, sample=False)))
     return out
 
+def undeclared_field_vs_names():
+    """access to a field the record type does not declare, while a global or local scalar / array of that name exists:
+    always a runtime error, never an access to the other object"""
+    out = []
+    uses = ['OUTPUT r.x', 'OUTPUT r.x[1]', 'r.x[1] <- 5', 'r.x <- 5', 'r.x <- other', 'other <- r.x', 'OUTPUT r.inner.x[2]', 'r.inner.x[2] <- 9', 'OUTPUT rs[1].x[1]', 'p <- ^r.x[1]']
+    for namekind in ('global-array', 'global-scalar', 'local-array', 'none'):
+        for use in uses:
+            for where in ('main', 'proc', 'byval'):
+                L = ['TYPE Inner', '  DECLARE k : INTEGER', 'ENDTYPE', 'TYPE T', '  DECLARE n : INTEGER', '  DECLARE v : ARRAY[1:2] OF INTEGER', '  DECLARE inner : Inner', 'ENDTYPE', 'TYPE IP = ^INTEGER',
+                     'DECLARE r : T', 'DECLARE rs : ARRAY[1:2] OF T', 'DECLARE other : ARRAY[1:2] OF INTEGER', 'DECLARE p : IP']
+                if namekind == 'global-array': L += ['DECLARE x : ARRAY[1:2] OF INTEGER', 'x[1] <- 11', 'x[2] <- 22']
+                if namekind == 'global-scalar': L += ['DECLARE x : INTEGER', 'x <- 33']
+                loc = ['  DECLARE x : ARRAY[1:2] OF INTEGER', '  x[1] <- 44'] if namekind == 'local-array' else []
+                if where == 'main':
+                    if namekind == 'local-array': continue
+                    L += [use]
+                elif where == 'proc':
+                    L += ['PROCEDURE P()'] + loc + ['  ' + use, '  OUTPUT "after"', 'ENDPROCEDURE', 'CALL P()']
+                else:
+                    L += ['PROCEDURE Q(BYVAL r : T)'] + loc + ['  ' + use, '  OUTPUT "after"', 'ENDPROCEDURE', 'CALL Q(r)']
+                L += ['OUTPUT "end"'] + (['OUTPUT x[1], " ", x[2]'] if namekind == 'global-array' else ['OUTPUT x'] if namekind == 'global-scalar' else [])
+                out.append(Case(J(L), limits=dict(steps=5000), meta=dict(gen='undeclared-field-' + namekind, sample=False)))
+    return out
+
 def extra(pid, tier, rng):
     """the families each property's check runs in addition to its own generators"""
     if pid == 'C01':
         c = alias_then_replace() + shadowed_types() + deref_node_reuse() + far_seek() + far_dates_output() + far_dates_files()[0] + pedantic_tail_with_files() \
             + array_cross_types() + redeclared_bounds(rng) + scope_change_in_activation(rng) + empty_comment_faults()[:40] + call_type_matrix()
-        c += rng.sample(retyped_sites(rng, n_orders=1), 40) + rng.sample(nested_undeclared(rng), 20)
+        c += rng.sample(retyped_sites(rng, n_orders=1), 40) + rng.sample(nested_undeclared(rng), 20) + undeclared_field_vs_names()[::3]
         return c
     if pid == 'C02': return concat_matrix() + retyped_sites(rng, ['plus', 'minus', 'div', 'concat', 'less', 'not', 'and', 'length', 'mid'])
     if pid == 'C03': return retyped_sites(rng, ['while', 'repeat', 'if', 'case', 'for', 'forstep', 'not']) + shadowed_condition(rng)
     if pid == 'C04': return call_type_matrix() + scope_change_in_activation(rng) + nested_undeclared(rng) + alias_then_replace()
     if pid == 'C05': return call_type_matrix() + array_cross_types() + retyped_sites(rng, ['store', 'byval', 'fn', 'index']) + shadowed_types()
     if pid == 'C06': return redeclared_bounds(rng) + retyped_sites(rng, ['index']) + array_cross_types()
-    if pid == 'C07': return shadowed_types() + alias_then_replace()
+    if pid == 'C07': return shadowed_types() + alias_then_replace() + undeclared_field_vs_names()
     if pid == 'C08': return scope_change_in_activation(rng)
     if pid == 'C09': return deref_node_reuse() + alias_then_replace()
     if pid == 'C10':
